@@ -30,3 +30,60 @@ package h264
 //@   requires sps != nil
 //@   modifies
 //@   ensures b == (sps.Vui.FixedFrameRateFlag == 1)
+
+// ---- SPS syntax guards (7.3.2.1.1): the conditions and repetition counts of the sequence parameter set syntax ----------
+// Not the whole syntax table: the decoder's CONTROL structure is pinned to the standard's - which elements are present
+// under which condition and how many times a repeated element is read - because a wrong guard shifts every following
+// field to a wrong bit position without any error.
+//@ import "github.com/cnotch/ipchub/utils"
+//@ import "github.com/cnotch/ipchub/utils/bits"
+//@ import "fmt"
+//@ import "errors"
+//@ import "runtime/debug"
+//@ extern func utils.RemoveH264or5EmulationBytes(data []byte) (out []byte)
+//@   modifies
+//@ extern func fmt.Errorf(format string, a ...interface{}) (err error)
+//@   modifies
+//@   ensures err != nil
+//@ extern func errors.New(text string) (err error)
+//@   modifies
+//@   ensures err != nil
+//@ extern func debug.Stack() (b []byte)
+//@   modifies
+// the helpers run out of data by panicking (index out of range in the bit reader): contained by Decode's recover
+//@ func (sps *RawSPS) scanList(r *bits.Reader, i int) (err error)
+//@   trusted
+//@   panics
+//@   requires sps != nil && r != nil && 0 <= i && i < 12
+//@   modifies sps.ScalingList4x4[:], sps.ScalingList8x8[:], *r
+//@ func (vui *RawVUI) decode(r *bits.Reader, sps *RawSPS) (err error)
+//@   trusted
+//@   panics
+//@   requires vui != nil && r != nil && sps != nil
+//@   modifies *vui, *r
+//@ func (vui *RawVUI) parametersDefault(sps *RawSPS) (err error)
+//@   trusted
+//@   requires vui != nil && sps != nil
+//@   modifies *vui
+// high profiles carry the chroma / bit-depth / scaling-matrix block
+//@ spec func highProfile(p uint8) bool = p == 100 || p == 110 || p == 122 || p == 244 || p == 44 || p == 83 || p == 86 || p == 118
+//@ func (sps *RawSPS) Decode(data []byte) (err error)
+//@   recovers
+//@   requires sps != nil
+//@   modifies all()
+//@   local r *bits.Reader
+//@   local i int
+//@   local maxI int
+//@   loop 0: modifies sps.SeqScalingListPresentFlag[:], sps.ScalingList4x4[:], sps.ScalingList8x8[:], *r
+//@   loop 0: invariant 0 <= i && i <= maxI && maxI == iteInt(sps.ChromaFormatIdc == 3, 12, 8) && r != nil && sps == old(sps) && highProfile(sps.ProfileIdc) && sps.SeqScalingMatrixPresentFlag != 0
+// seq_scaling_list_present_flag[i] is read for i < ((chroma_format_idc != 3) ? 8 : 12)  - keyed on chroma_format_idc
+//@   loop 0: exit i == iteInt(sps.ChromaFormatIdc == 3, 12, 8)
+//@   assert[call:scanList] 0 <= i && i < iteInt(sps.ChromaFormatIdc == 3, 12, 8) && sps.SeqScalingListPresentFlag[i] != 0
+// offset_for_ref_frame[i] is read num_ref_frames_in_pic_order_cnt_cycle times, only for pic_order_cnt_type 1
+//@   loop 1: modifies sps.OffsetForRefFrame[:], *r
+//@   loop 1: invariant r != nil && sps == old(sps) && sps.PicOrderCntType == 1
+//@   assert[call:(*github.com/cnotch/ipchub/av/codec/h264.RawVUI).decode] sps.VuiParametersPresentFlag == 1
+//@   assert[call:parametersDefault] sps.VuiParametersPresentFlag != 1
+//@   ensures err == nil && old(len(data)) >= 0 ==> sps.NalUnitHeader.NalUnitType == NalSps
+//@   ensures err == nil && !highProfile(sps.ProfileIdc) ==> sps.ChromaFormatIdc == uint8(iteInt(sps.ProfileIdc == 183, 0, 1)) && sps.SeparateColourPlaneFlag == 0 && sps.BitDepthLumaMinus8 == 0 && sps.BitDepthChromaMinus8 == 0
+//@   ensures err == nil && highProfile(sps.ProfileIdc) && sps.ChromaFormatIdc != 3 ==> sps.SeparateColourPlaneFlag == 0
